@@ -4,6 +4,7 @@ passlib.utils.binary - binary data encoding/decoding/manipulation
 
 from __future__ import annotations
 
+import threading
 from base64 import (
     b32decode as _b32decode,
 )
@@ -827,6 +828,10 @@ class Base64Engine:
         return self._encode_int(value, 64)
 
 
+#: lock serializing LazyBase64Engine initialization
+_lazy_init_lock = threading.Lock()
+
+
 class LazyBase64Engine(Base64Engine):
     """Base64Engine which delays initialization until it's accessed"""
 
@@ -836,14 +841,22 @@ class LazyBase64Engine(Base64Engine):
         self._lazy_opts = (args, kwds)
 
     def _lazy_init(self):
-        args, kwds = self._lazy_opts
-        super().__init__(*args, **kwds)
-        del self._lazy_opts
-        self.__class__ = Base64Engine
+        # NOTE: serialized, so that concurrent first users don't see (or delete)
+        #       each other's half-finished state.
+        with _lazy_init_lock:
+            if not isinstance(self, LazyBase64Engine):
+                # another thread finished initialization (and switched our class)
+                # while we waited for the lock
+                return
+            args, kwds = self._lazy_opts
+            super().__init__(*args, **kwds)
+            del self._lazy_opts
+            self.__class__ = Base64Engine
 
     def __getattribute__(self, attr):
         if not attr.startswith("_"):
-            self._lazy_init()
+            # NOTE: not looked up via self -- another thread may switch our class at any time
+            LazyBase64Engine._lazy_init(self)
         return object.__getattribute__(self, attr)
 
 
